@@ -22,6 +22,22 @@ Abs(t) ==
       [] t.k = "param" -> [k |-> "param", n |-> t.n]
       [] OTHER -> t                                                          \* prim
 
+\* A mapping of a CONTAINER INSTANCE (TypeScript, Go, Python): `"Vec<u8>" = Name` replaces every Vec<u8> - at any depth, also
+\* behind references and smart pointers, but not [u8; N] or &[u8], which are other instances - by Name.
+RECURSIVE Strip(_)
+Strip(t) == IF t.k \in {"ref", "path", "wrap"} THEN Strip(t.e) ELSE t
+IsVecU8(t) == LET s == Strip(t) IN s.k = "vec" /\ Strip(s.e).k = "prim" /\ Strip(s.e).n = "u8"
+RECURSIVE AbsC(_, _)
+AbsC(t, vecu8) ==
+    IF vecu8 # "" /\ IsVecU8(t) THEN [k |-> "mapped", n |-> vecu8]
+    ELSE CASE t.k \in {"ref", "path", "wrap"} -> AbsC(t.e, vecu8)
+           [] t.k \in {"vec", "array", "slice"} -> [k |-> "seq", e |-> AbsC(t.e, vecu8)]
+           [] t.k = "option" -> [k |-> "opt", e |-> AbsC(t.e, vecu8)]
+           [] t.k = "map" -> [k |-> "map", key |-> AbsC(t.key, vecu8), val |-> AbsC(t.val, vecu8)]
+           [] t.k = "user" -> [k |-> "user", n |-> t.n, args |-> [i \in 1..Len(t.args) |-> AbsC(t.args[i], vecu8)]]
+           [] t.k = "param" -> [k |-> "param", n |-> t.n]
+           [] OTHER -> t
+
 \* Only TypeScript can keep Option<Option<T>> apart from Option<T> (`?` plus `| null`); for the other
 \* languages consecutive options are one option (both in what P requires and in what is observed)
 RECURSIVE Collapse(_)
@@ -108,7 +124,8 @@ Conf(lang, cfg, a, o) ==
     IF a.k \in {"user", "prim"} /\ (IF a.k = "user" THEN a.n ELSE a.n) \in DOMAIN cfg.mapping
     THEN \* a configured type mapping replaces the mapped Rust type by the configured name, without arguments
          o.k \in {"user", "prim"} /\ NodeName(o) = cfg.mapping[a.n] /\ (o.k = "user" => Len(o.args) = 0)
-    ELSE CASE a.k = "seq" -> o.k = "seq" /\ Conf(lang, cfg, a.e, o.e)
+    ELSE CASE a.k = "mapped" -> o.k \in {"user", "prim"} /\ NodeName(o) = a.n /\ (o.k = "user" => Len(o.args) = 0)
+           [] a.k = "seq" -> o.k = "seq" /\ Conf(lang, cfg, a.e, o.e)
            [] a.k = "opt" -> o.k \in {"opt", "undef"} /\ Conf(lang, cfg, a.e, o.e)
            [] a.k = "map" -> o.k = "map" /\ Conf(lang, cfg, a.key, o.key) /\ Conf(lang, cfg, a.val, o.val)
            [] a.k = "param" -> o.k = "user" /\ o.n = a.n /\ Len(o.args) = 0                 \* never prefixed or renamed
